@@ -124,7 +124,8 @@ func genClockReal() (string, error) {
 				}
 				fn := fullSel(ce.Fun)
 				switch {
-				case fn == "time.Now" || fn == "os.Hostname" || fn == "os.Getenv" || fn == "os.LookupEnv" || fn == "os.Environ" || strings.HasPrefix(fn, "rand."):
+				case fn == "time.Now" || fn == "time.Since" || fn == "os.Hostname" || fn == "os.Getenv" || fn == "os.LookupEnv" || fn == "os.Environ" || strings.HasPrefix(fn, "rand.") ||
+					fn == "runtime.GOMAXPROCS" || fn == "runtime.NumCPU" || fn == "os.Getpid" || fn == "os.Getuid" || fn == "os.Getgid" || fn == "os.Getwd" || fn == "user.Current":
 					sites = append(sites, site{f, fd.Name.Name, fn})
 				case fn == "modtime.Get" || fn == "modtime.FromEnv":
 					var args []string
